@@ -68,6 +68,26 @@ def _wssym_module():
     return '\n'.join(out) + '\n'
 
 
+def _diag_module():
+    """ProjectConfig and compile_project_main of server.rs (the diagnostics the server publishes), cut verbatim."""
+    from rustcut import Source
+    S = Source(os.path.join(common.repo_root(), 'dora-language-server/src/server.rs'))
+    out = ['#![allow(unused)]', 'use std::collections::HashMap;', 'use std::path::PathBuf;', 'use lsp_types::{Diagnostic, DiagnosticSeverity, Position, Range};',
+           'use dora_parser::compute_line_column;', 'use dora_frontend::Vfs;', 'use crate::position::span_to_range;', '']
+    out.append(S.cut_item('struct', 'ProjectConfig')['text'])
+    out.append('')
+    out.append(S.cut_fn('compile_project_main', 0, len(S.src), depth=0)['text'])
+    out.append("""
+pub fn vx_diagnostics(text: &str) -> Vec<Diagnostic> {
+    let main = PathBuf::from("/vx-c20/main.dora");
+    let project = ProjectConfig { name: "p".into(), main: main.clone(), project_file: PathBuf::new(), is_standard_library: false };
+    let vfs = Vfs::new().open_file(main.clone(), std::sync::Arc::new(text.to_string()));
+    compile_project_main(&project, vfs).remove(&main).unwrap_or_default()
+}
+""")
+    return '\n'.join(out) + '\n'
+
+
 def _link_pkgs():
     """Sema::new looks for a `pkgs` directory next to an ancestor of the running executable: give the runner the working tree's."""
     d = common.ensure_dir(os.path.join(common.BUILD, 'target-runners', 'release'))
@@ -84,7 +104,7 @@ def _runner_spec():
     docsym, _names = _docsym_module()
     _link_pkgs()
     return dict(name='c20', deps={'dora-parser': 'dora-parser', 'dora-frontend': 'dora-frontend'}, lock=True,
-                extra_files={'position.rs': _position_module(), 'docsym.rs': docsym, 'wssym.rs': _wssym_module()}, extra_deps=['lsp-types = "*"', 'url = "*"'],
+                extra_files={'position.rs': _position_module(), 'docsym.rs': docsym, 'wssym.rs': _wssym_module(), 'diag.rs': _diag_module()}, extra_deps=['lsp-types = "*"', 'url = "*"'],
                 budget_quick_ms=4000, budget_thorough_ms=90000)
 
 
@@ -117,10 +137,27 @@ def run(tier):
     not_decided = ['document symbol ranges are NOT under contract (they need the front end): scan_single_file / element_to_document_symbol / compute_element_propertiees are cut verbatim from '
                    'document_symbols.rs and EXECUTED by the replay runner on generated program-like texts (ranges inside the document, selection inside range, children inside parents, no panic): sampled',
                    'workspace symbols: append_workspace_symbol_for_element / compute_element_properties / file_path_to_uri cut verbatim and executed the same way (location ranges inside the document, no panic): sampled',
-                   'goto-definition, server.rs request handlers',
+                   'published diagnostics: ProjectConfig + compile_project_main of server.rs cut verbatim and executed; every published range must be the UTF-16 range (position.rs, proved) of its error span: sampled',
+                   'goto-definition, the other server.rs request handlers',
                    'range_to_span (unused; `end - start` underflows for reversed ranges)']
+    # published diagnostics: compile_project_main of server.rs, cut verbatim, executed on generated programs with mistakes after non-ASCII text
+    diag_v, diag_info = [], None
+    try:
+        import json as _json
+        spec = runner or _runner_spec()
+        rb = common.build_runner(spec['name'], spec['deps'], lock=True, extra_files=spec['extra_files'], extra_deps=spec['extra_deps'])
+        count = 8 if tier == 'quick' else 150
+        rc, out, err, wall = common.run_cmd([rb, 'diag', str(common.seed()), str(count)], timeout=1200)
+        diag_info = _json.loads(out.strip().split('\n')[-1])
+        diag_info['wall_s'] = round(wall, 1)
+        if diag_info.get('found'):
+            diag_v.append(('runner:published diagnostic ranges', 'executable form of the C20 contract on the real server code: published diagnostic ranges are the UTF-16 ranges of the error spans',
+                           dict(failing_input=dict(kind='diag', text_hex=diag_info['text_hex'], what=diag_info.get('what'))), True))
+    except Exception as e:
+        pre_und.append('diagnostics runner unavailable: %s' % str(e)[:500])
     return vprop.run_verus_property(PROP, tier, units, runner=runner, assumptions=assumptions, samples=samples,
-                                    not_decided=not_decided, pre_undecided=pre_und)
+                                    not_decided=not_decided, pre_undecided=pre_und, pre_violations=diag_v,
+                                    extra_cov=dict(diagnostics_runner=diag_info))
 
 
 def replay(rp):
@@ -131,6 +168,6 @@ def replay(rp):
         return 1
     spec = _runner_spec()
     runner = common.build_runner(spec['name'], spec['deps'], lock=True, extra_files=spec['extra_files'], extra_deps=spec['extra_deps'])
-    rc, out, err, _ = common.run_cmd([runner, {'symbols': 'replay-symbols', 'ws-symbols': 'replay-ws-symbols'}.get(fi.get('kind'), 'replay'), fi['text_hex']])
+    rc, out, err, _ = common.run_cmd([runner, {'symbols': 'replay-symbols', 'ws-symbols': 'replay-ws-symbols', 'diag': 'replay-diag'}.get(fi.get('kind'), 'replay'), fi['text_hex']])
     print(out.strip())
     return 1 if rc != 0 else 0
